@@ -1,5 +1,5 @@
 (** C15 — proofs: the invariants of C15/Spec.v hold after every history. *)
-From Algo.C01 Require Import Model Spec SpecFacts ProofsQuery ProofsRun ProofsAVL Proofs.
+From Algo.C01 Require Import Model Spec SpecFacts ProofsQuery ProofsRun ProofsAVL ProofsRB Proofs.
 From Algo.C15 Require Import Spec.
 From Coq Require Import Lia.
 Open Scope Z_scope.
@@ -37,3 +37,91 @@ Section AVL15.
     apply Z.eqb_eq in H. apply Z.leb_le in H2, H3. repeat split; auto; lia.
   Qed.
 End AVL15.
+
+Section RB15.
+  Context {K V : Type}.
+  Variable cmp : K -> K -> Z.
+  Hypothesis TO : TotalOrder cmp.
+  Notation tree := (tree K V).
+
+  Lemma rbt_height (t : tree) n : rbt t n -> height t <= 2 * n + (if isRed t then 1 else 0).
+  Proof.
+    induction 1 as [|l k v s h r n Hl IHl Hr IHr Bl Br|l k v s h r n Hl IHl Hr IHr Br]; cbn [height isRed].
+    - lia.
+    - rewrite Bl in IHl. rewrite Br in IHr. lia.
+    - rewrite Br in IHr. destruct (isRed l); lia.
+  Qed.
+
+  Lemma count_nonneg (t : tree) : 0 <= count t.
+  Proof. induction t; cbn [count]; lia. Qed.
+
+  Lemma rbt_count (t : tree) n : rbt t n -> 2 ^ n <= count t + 1.
+  Proof.
+    induction 1 as [|l k v s h r n Hl IHl Hr IHr Bl Br|l k v s h r n Hl IHl Hr IHr Br]; cbn [count].
+    - simpl. lia.
+    - pose proof (count_nonneg r). lia.
+    - pose proof (rbt_nonneg _ _ Hl). replace (n + 1) with (Z.succ n) by lia. rewrite Z.pow_succ_r by assumption. lia.
+  Qed.
+
+  Lemma sizes_count (t : tree) : sizes_ok t -> size t = count t.
+  Proof.
+    induction t as [|l IHl k v s h c r IHr]; cbn [sizes_ok size count]; [reflexivity|].
+    intros (-> & Hl & Hr). rewrite IHl, IHr by auto. reflexivity.
+  Qed.
+
+  (** the logarithmic height bound *)
+  Lemma rb_log_bound (t : tree) n :
+    rbt t n -> isRed t = false -> height t <= 2 * Z.log2 (count t + 1).
+  Proof.
+    intros HR HB. pose proof (rbt_height t n HR) as H1. rewrite HB in H1.
+    pose proof (rbt_count t n HR) as H2. pose proof (count_nonneg t).
+    assert (n <= Z.log2 (count t + 1)) by (apply Z.log2_le_pow2; lia). lia.
+  Qed.
+
+  Lemma rbt_props (t : tree) n : rbt t n -> black_paths t n /\ no_right_red t /\ no_red_red t.
+  Proof.
+    induction 1 as [|l k v s h r n Hl IHl Hr IHr Bl Br|l k v s h r n Hl IHl Hr IHr Br];
+      cbn [no_right_red no_red_red].
+    - repeat split; constructor.
+    - destruct IHl as (?&?&?), IHr as (?&?&?). repeat split; auto. now constructor.
+    - destruct IHl as (?&?&?), IHr as (?&?&?). repeat split; auto; [now constructor|discriminate].
+  Qed.
+
+  Lemma rbt_black_height (t : tree) n : rbt t n -> black_height t = Some n.
+  Proof.
+    induction 1 as [|l k v s h r n Hl IHl Hr IHr Bl Br|l k v s h r n Hl IHl Hr IHr Br]; cbn [black_height].
+    - reflexivity.
+    - rewrite IHl, IHr, Z.eqb_refl. reflexivity.
+    - rewrite IHl, IHr, Z.eqb_refl. reflexivity.
+  Qed.
+
+  Lemma rbt_colors_ok (t : tree) n : rbt t n -> rb_colors_ok t = true.
+  Proof.
+    induction 1 as [|l k v s h r n Hl IHl Hr IHr Bl Br|l k v s h r n Hl IHl Hr IHr Br]; cbn [rb_colors_ok].
+    - reflexivity.
+    - rewrite IHl, IHr, Bl, Br. reflexivity.
+    - rewrite IHl, IHr, Br. reflexivity.
+  Qed.
+
+  (** everything C15 says about a red-black table, from the table-level invariant *)
+  Lemma rb_ok_props (t : tree) :
+    rb_ok cmp t ->
+    black_balanced t /\ no_right_red t /\ no_red_red t /\ root_black t /\
+    height t <= 2 * Z.log2 (size t + 1) /\ Height RB t = height t /\ rb_check t = true.
+  Proof.
+    intros (HS & HZ & HB & n & HR). destruct (rbt_props t n HR) as (P1 & P2 & P3).
+    split; [exists n; exact P1|]. split; [exact P2|]. split; [exact P3|]. split; [exact HB|].
+    split; [rewrite sizes_count by auto; eapply rb_log_bound; eauto|]. split; [reflexivity|].
+    unfold rb_check. rewrite HB, (rbt_colors_ok t n HR), (rbt_black_height t n HR). reflexivity.
+  Qed.
+
+  Theorem rb_after_put_history (h : list (mut K V)) :
+    forallb put_only h = true ->
+    exists t, build cmp RB h = Ok t /\
+      black_balanced t /\ no_right_red t /\ no_red_red t /\ root_black t /\
+      height t <= 2 * Z.log2 (size t + 1) /\ Height RB t = height t /\ rb_check t = true.
+  Proof.
+    intros HA. destruct (rb_build_inv_put cmp TO h HA) as [t [E1 [_ I]]].
+    exists t. split; [exact E1|]. now apply rb_ok_props.
+  Qed.
+End RB15.
